@@ -12,7 +12,7 @@ namespace GeoVerif.Corr.C08
 open GeoVerif GeoVerif.Proto GeoVerif.Polygon
 
 /-- a bit-level difference with no property-level difference is drift (skipped line), not a failing input -/
-def driftIsBad : Bool := true
+def driftIsBad : Bool := false
 
 def pb (s : String) : Option Bool := if s == "1" then some true else if s == "0" then some false else none
 
